@@ -9,6 +9,10 @@ import GqlgenVerif.Gen.GenerateSteps
 import GqlgenVerif.Model.PerSchema
 import GqlgenVerif.Gen.PerSchemaSteps
 import GqlgenVerif.Model.ExtraFields
+import GqlgenVerif.Model.RenderOrder
+import GqlgenVerif.Gen.RenderOrder
+import GqlgenVerif.Model.IndexDefs
+import GqlgenVerif.Gen.IndexDefs
 /-! Line-protocol driver for C18: the order model on the harness's cases.
 
   order <decl>|<decl>…   the package-level identifiers of the model file in the order the generator must write them
@@ -33,6 +37,11 @@ import GqlgenVerif.Model.ExtraFields
                          (which source each queried output file is pinned to and the dir_<name>_args functions it gets)
   xf <name>/<type>,…|- <type>,…|-   getExtraFields: named extra fields in the order the map delivered them, embedded ones;
                          answer: the struct's extra fields in order, `name` or `~type`
+  roots <name>,…|-       templates.Render: the template names in the order t.Templates() DELIVERED them (plain ASCII); the root
+                         filter and the comparator are the regenerated ones (Gen/RenderOrder); answer: the roots in execution order
+  idx <name>/<obj>/<x|n|p|s>,… <lookup>,…   binder indexDefs + FindObject on the entries of TypesInfo.Defs in DELIVERY order
+                         (x = nil object, n = no parent scope, p = package scope, s = nested scope; obj = a number), guards and
+                         first-wins as regenerated in Gen/IndexDefs; answer `<lookup>=<obj|->,…`
 -/
 open GqlgenVerif GqlgenVerif.Naming
 namespace Driver.C18
@@ -111,8 +120,25 @@ def xfOp (named embedded : String) : String :=
   ",".intercalate ((ExtraFields.extraFields ns es).map fun f =>
     if f.name.isEmpty then "~" ++ Driver.ascii f.typ else Driver.ascii f.name)
 
+def rootsOp (ns : String) : String :=
+  let imp := RenderOrder.hasSuffix (asciiName Gen.RenderOrder.importantSuffix)
+  let delivered := (names ns).map asciiName
+  let roots := delivered.filter (RenderOrder.isRoot (asciiName Gen.RenderOrder.skipSuffix) (asciiName Gen.RenderOrder.rootSuffix))
+  ",".intercalate ((RenderOrder.renderOrder Gen.RenderOrder.comparator imp roots).map Driver.ascii)
+
+def idxOp (defs lookups : String) : String :=
+  let ds : List IndexDefs.Def := (names defs).filterMap fun x =>
+    match x.splitOn "/" with
+    | [n, o, k] => some ⟨n, o.toNat!, k == "x", if k == "p" then .pkg else if k == "s" then .nested else .none⟩
+    | _ => none
+  let idx := IndexDefs.indexDefs Gen.IndexDefs.skips Gen.IndexDefs.firstWins ds
+  ",".intercalate ((names lookups).map fun t =>
+    t ++ "=" ++ (match IndexDefs.findObject idx t with | some o => toString o | none => "-"))
+
 def step (line : String) : String :=
   match line.splitOn " " with
+  | ["roots", ns] => rootsOp ns
+  | ["idx", defs, lookups] => idxOp defs lookups
   | ["pins", data, dirs, files] => pinsOp data dirs files
   | ["xf", named, embedded] => xfOp named embedded
   | ["gen2", ts, hand, ab] =>
